@@ -17,7 +17,14 @@ for f in sorted(glob.glob(os.path.join(HERE, "wrapsa", "*.py")) + glob.glob(os.p
                 bad += 1
             seen_defs[st.name] = st.lineno
     mod = set()
-    for st in ast.walk(t):
+    def top_level(stmts):
+        for st in stmts:
+            if isinstance(st, (ast.FunctionDef, ast.ClassDef)):
+                continue
+            yield st
+            for fld in ("body", "orelse", "finalbody", "handlers"):
+                yield from top_level(getattr(st, fld, []) or [])
+    for st in top_level(t.body):          # imports inside a function are names of that function only
         if isinstance(st, (ast.Import, ast.ImportFrom)):
             for a in st.names:
                 mod.add((a.asname or a.name).split(".")[0])
